@@ -77,12 +77,17 @@ theorem gen_fpm_sign_conj :
     fpmBackSign = 1 ∧ fpmBackConjMaskIffComplex = true ∧ fpmBackWired = true ∧ fpmFwdWired = true := by
   decide
 
-/-- `babinet_backprop` returns `cbar − B(cbar)` with `cbar = conj(L)·ȳ` and the same `1 − fpm` mask as the forward -/
-theorem gen_babinet :
+/-- `babinet_backprop` returns `cbar − B(cbar)` with the same `1 − fpm` mask and call arguments as the forward; what it hands to the
+mask-and-back adjoint (`cbar`, obtained by symbolic execution of the body under each kind of Lyot stop, so if/else and default-then-override
+give the same term) is the upstream gradient itself without a stop, `ȳ·L` for a real stop and `ȳ·conj(L)` for a complex one -/
+theorem gen_babinet {C : Type} [Field C] (conj : C → C) (d L : C) :
     babinetBackCoef * fpmBackSign = -1 ∧ babinetMaskIsOneMinusInBoth = true ∧
-    babinetFwdIsLyotTimesDataMinusField = true ∧ babinetBackConjLyotIffComplex = true ∧
-    babinetBackSameCallArgs = true := by
-  decide
+    babinetFwdIsLyotTimesDataMinusField = true ∧ babinetBackSameCallArgs = true ∧
+    babinetBackCbarNone conj d L = d ∧ babinetBackCbarReal conj d L = d * L ∧ babinetBackCbarComplex conj d L = d * conj L := by
+  refine ⟨by decide, by decide, by decide, by decide, ?_, ?_, ?_⟩
+  · first | rfl | (simp only [babinetBackCbarNone]; push_cast; ring)
+  · first | rfl | (simp only [babinetBackCbarReal]; push_cast; ring)
+  · first | rfl | (simp only [babinetBackCbarComplex]; push_cast; ring)
 
 section
 variable {K : Type} [Field K]
